@@ -49,7 +49,8 @@ def total_fraction_inside(N, p, big=6):
     full = pixel_integrate(M, q, os=3, core=3, core_os=61)
     lo = (M - N) // 2
     inside = full[lo:lo + N, lo:lo + N].sum()
-    return inside / p["flux"], 1.0 - full.sum() / p["flux"]
+    # (in-footprint fraction, out-of-footprint fraction); the light beyond the big frame counts as outside
+    return inside / p["flux"], 1.0 - inside / p["flux"]
 
 
 def convolve_centered(img, psf):
